@@ -70,6 +70,8 @@ jobs:
     uses: ./.github/workflows/callee.yml
     with:
       cin: x
+      cnum: ${{ 1 }}
+      cbool: true
     secrets:
       csec: x
   c:
@@ -86,7 +88,7 @@ var c01ActionSeeds = map[string]string{
 }
 
 var c01CalleeSeeds = map[string]string{
-	"callee": "on:\n  workflow_call:\n    inputs:\n      cin:\n        description: d\n        required: true\n        default: x\n        type: string\n    secrets:\n      csec:\n        description: d\n        required: true\n    outputs:\n      cout:\n        description: d\n        value: ${{ jobs.j.outputs.o }}\njobs:\n  j:\n    runs-on: ubuntu-latest\n    outputs:\n      o: x\n    steps:\n      - run: echo\n",
+	"callee": "on:\n  workflow_call:\n    inputs:\n      cin:\n        description: d\n        required: true\n        default: x\n        type: string\n      cnum:\n        type: number\n      cbool:\n        type: boolean\n        default: false\n    secrets:\n      csec:\n        description: d\n        required: true\n    outputs:\n      cout:\n        description: d\n        value: ${{ jobs.j.outputs.o }}\njobs:\n  j:\n    runs-on: ubuntu-latest\n    outputs:\n      o: x\n    steps:\n      - run: echo\n",
 }
 
 var c01ConfigSeeds = map[string]string{
@@ -137,6 +139,12 @@ func c01Channels() []*c01Channel {
 	}
 	return []*c01Channel{
 		{"workflow", wfSeeds, func(t testing.TB, dir, content string) vLintResult { return vLint(content, nil) }},
+		// the workflow itself, linted inside the repository: what it passes to the local action and
+		// to the local reusable workflow is checked against their (known) interfaces
+		{"workflow-in-project", map[string]string{"caller": c01Caller}, func(t testing.TB, dir, content string) vLintResult {
+			write(t, filepath.Join(dir, ".github/workflows/caller.yml"), content)
+			return c01LintFile(dir, filepath.Join(dir, ".github/workflows/caller.yml"), LinterOptions{})
+		}},
 		{"action-metadata", c01ActionSeeds, func(t testing.TB, dir, content string) vLintResult {
 			write(t, filepath.Join(dir, "act/action.yml"), content)
 			return c01LintFile(dir, filepath.Join(dir, ".github/workflows/caller.yml"), LinterOptions{})
@@ -207,7 +215,7 @@ func TestVerifC01(t *testing.T) {
 	r.Bounds["expression_token_sequences_up_to"] = tokN
 	r.Bounds["expression_char_strings_up_to"] = chrN
 	r.Bounds["pairs_of_substitutions"] = vThorough()
-	r.Extra["rule"] = "channels {workflow, action metadata, reusable workflow, repo config, -config-file} x (every value and key position of the channel's seeds x ~115 YAML fragments incl. explicit tags, anchors/aliases/merge keys, nesting to depth 5000, invalid UTF-8, block forms; all byte strings <= 2; thorough: all pairs of fragments in sibling positions of one mapping) + all expression token sequences / character strings up to a bound inside ${{ }} and bare if: through the whole Linter. oracle: no panic, result shape, termination. class = (channel, result kind); non-trivial = anything but a clean lint"
+	r.Extra["rule"] = "channels {workflow, workflow inside a repository with a local action and a local reusable workflow, action metadata, reusable workflow, repo config, -config-file} x (every value and key position of the channel's seeds x ~115 YAML fragments incl. explicit tags, anchors/aliases/merge keys, nesting to depth 5000, invalid UTF-8, block forms; all byte strings <= 2; thorough: all pairs of fragments in sibling positions of one mapping) + all expression token sequences / character strings up to a bound inside ${{ }} and bare if: through the whole Linter. oracle: no panic, result shape, termination. class = (channel, result kind); non-trivial = anything but a clean lint"
 	r.Extra["assumptions"] = []string{"inputs above the stated bounds (all byte strings <= 64 KiB) are out of reach of enumeration", "yaml.v3 is exercised only as far as these inputs drive it", "a case running longer than 120 s counts as a hang"}
 	dir := vTempDir(t, "c01-")
 	c01Project(t, dir)
